@@ -23,10 +23,6 @@ Fixpoint wf_raw_b (v : rawval) : bool :=
 Definition wf_dopt_b (o : dopt) : bool :=
   qname_eqb (o_full o) (pn_name (o_name o)) && negb (is_nil (pn_name (o_name o))) && wf_raw_b (o_val o).
 
-Definition kw_free_b (c : ident) : bool :=
-  negb (is_scalar_kind c) && negb (ident_eqb c kw_repeated) && negb (ident_eqb c kw_optional)
-  && negb (ident_eqb c kw_option).
-
 Definition wf_ref_b (st : symtab) (pkg ref : qname) : bool :=
   forallb (fun k => is_type st (pkg ++ firstn k ref)) (seq 1 (length ref)).
 
@@ -38,7 +34,7 @@ Definition entry_eqb (a b : qname * qname) : bool := qname_eqb (fst a) (fst b) &
 
 Definition wf_tref_b (x : xsymtab) (pkg rp path : qname) : bool :=
   negb (is_nil path) && wf_target_b (to_symtab x) pkg rp path
-  && existsb (entry_eqb (rp, path)) (x_types x) && forallb kw_free_b (rp ++ path).
+  && existsb (entry_eqb (rp, path)) (x_types x).
 
 Definition wf_dvt_b (x : xsymtab) (pkg : qname) (t : dvt) : bool :=
   match t with DScalar k => is_scalar_kind k | DRef rp path => wf_tref_b x pkg rp path end.
